@@ -16,7 +16,8 @@
      checker_called            the checker of the taken expectation was not run exactly once on the message
      deviation_not_reported / unexpected_report / report_arguments   ErrorReporter calls (see below)
    Consumer clauses
-     consume_result (unexpected / already consumed partition), consecutive_offsets, message_partition
+     consume_result (unexpected / already consumed partition), metadata_result (Topics / Partitions
+     answer from the metadata set last), consecutive_offsets, message_partition
      (yielded message stamped with the partition consumer's topic/partition), yield_order, error_order,
      high_water_mark,
      deviation_not_reported / unexpected_report / report_arguments
@@ -35,8 +36,8 @@ EXTENDS MocksOracle, Json
 
 Trace == ndJsonDeserialize("trace.ndjson")
 
-VARIABLES l, viol, cf, ps, pm, obs, lastOff, cs, cb, st
-vars == <<l, viol, cf, ps, pm, obs, lastOff, cs, cb, st>>
+VARIABLES l, viol, cf, ps, pm, obs, lastOff, cs, cb, md, st
+vars == <<l, viol, cf, ps, pm, obs, lastOff, cs, cb, md, st>>
 
 E == Trace[l]
 V(i, c) == {<<E.t, i, c>>}
@@ -46,7 +47,7 @@ Cf0 == [mode |-> "-", pk |-> "rr", np |-> [ta |-> 1, tb |-> 1], rets |-> TRUE, q
 Cb0 == [p \in CParts |-> 0]     \* offset before the first message yielded on p, as observed
 St0 == [cases |-> 0, sends |-> 0, batches |-> 0, csends |-> 0, cops |-> 0, closes |-> 0, outcomes |-> 0, reports |-> 0]
 Init == /\ l = 1 /\ viol = {} /\ cf = Cf0 /\ ps = PInit0(0) /\ pm = <<>> /\ obs = <<>>
-        /\ lastOff = 0 /\ cs = CInit /\ cb = Cb0 /\ st = St0
+        /\ lastOff = 0 /\ cs = CInit /\ cb = Cb0 /\ md = 0 /\ st = St0
 
 Get(f, k, d) == IF k \in DOMAIN f THEN f[k] ELSE d
 Put(f, k, v) == (k :> v) @@ f
@@ -87,14 +88,17 @@ LastSucc(outs, from) ==
    (-1: it was not asked), mp = msg.Partition afterwards, chk = checker invocations (expectation ids) *)
 StepSend(acc, m, pobs, mp, chk, i) ==
   LET al == AllowedParts(cf, acc.ps, m)
-      p == IF pobs \in al THEN pobs ELSE IF mp \in al THEN mp ELSE CHOOSE q \in al : TRUE
+      p == IF m.bad = 1 THEN NoPart
+           ELSE IF pobs \in al THEN pobs ELSE IF mp \in al THEN mp ELSE CHOOSE q \in al : TRUE
       r == PSend(cf, acc.ps, m, p)
-      wantchk == IF r.took # 0 /\ HasChecker(r.ekind) THEN <<r.took>> ELSE <<>>
+      wantchk == IF r.took # 0 /\ m.bad = 0 /\ HasChecker(r.ekind) THEN <<r.took>> ELSE <<>>
   IN [ps |-> r.ps,
       pm |-> Put(acc.pm, m.mid, [i |-> i, took |-> r.took, ekind |-> r.ekind, exp |-> r.outs, p |-> p]),
-      \* a report in this situation is "no expectation" (no arguments) or the failing checker (its error)
-      repE |-> acc.repE \o [k \in DOMAIN r.rep |-> IF r.rep[k] = "checker" THEN <<ErrId("c", r.took)>> ELSE <<>>],
-      v |-> acc.v \cup When(r.took # 0 /\ (mp \notin al \/ (pobs # -1 /\ pobs \notin al)), i, "partition_choice")
+      \* a report in this situation is "no expectation" (no arguments), the failing checker (its error)
+      \* or the failing partitioner (its error)
+      repE |-> acc.repE \o [k \in DOMAIN r.rep |-> IF r.rep[k] = "checker" THEN <<ErrId("c", r.took)>>
+                                                    ELSE IF r.rep[k] = "partitioner" THEN <<ErrId("p", m.mid)>> ELSE <<>>],
+      v |-> acc.v \cup When(r.took # 0 /\ m.bad = 0 /\ (mp \notin al \/ (pobs # -1 /\ pobs \notin al)), i, "partition_choice")
                  \cup When(chk # wantchk, i, "checker_called")]
 
 \* clauses about the outcomes of message mid, evaluated when the case is complete (o = all its outcomes)
@@ -107,7 +111,7 @@ MsgClauses(allobs, mid) ==
   ELSE When(Len(o) # Len(x.exp), x.i, "exactly_one_outcome")
        \cup When(Len(x.exp) = 1 /\ Len(o) >= 1 /\ ~\E k \in DOMAIN o : matches(o[k]), x.i, "fifo_outcome")
        \cup When(cf.mode = "sync" /\ \E k \in DOMAIN o : OKind(o[k]) = "succ" /\ OPart(o[k]) # x.p, x.i, "sync_return_partition")
-       \cup When(cf.mode = "async" /\ \E k \in DOMAIN o : OPart(o[k]) # x.p, x.i, "partition_choice")
+       \cup When(cf.mode = "async" /\ x.p # NoPart /\ \E k \in DOMAIN o : OPart(o[k]) # x.p, x.i, "partition_choice")
 
 Bad == When(E.err # "", E.i, "no_hang_or_panic")
 
@@ -117,7 +121,7 @@ ExpectAll(s, kinds) == IF kinds = <<>> THEN s ELSE ExpectAll(PExpect(s, Head(kin
 TReset ==
   /\ E.ev = "reset"
   /\ cf' = [mode |-> E.mode, pk |-> E.pk, np |-> [ta |-> E.npa, tb |-> E.npd], rets |-> E.rets, quirks |-> FALSE]
-  /\ ps' = ExpectAll(PInit0(E.npa), E.script) /\ pm' = <<>> /\ obs' = <<>> /\ lastOff' = 0 /\ cs' = CInit /\ cb' = Cb0
+  /\ ps' = ExpectAll(PInit0(E.npa), E.script) /\ pm' = <<>> /\ obs' = <<>> /\ lastOff' = 0 /\ cs' = CInit /\ cb' = Cb0 /\ md' = 0
   /\ st' = [st EXCEPT !.cases = @ + 1]
   \* the violations of the previous case are printed and dropped (keeps the observer's state small)
   /\ (viol # {}) => PrintT(<<"VIOL", ToJson(viol)>>)
@@ -126,47 +130,47 @@ TReset ==
 TExpect ==
   /\ E.ev = "expect"
   /\ ps' = PExpect(ps, E.kind)
-  /\ UNCHANGED <<viol, cf, pm, obs, lastOff, cs, cb, st>>
+  /\ UNCHANGED <<viol, cf, pm, obs, lastOff, cs, cb, md, st>>
 
 \* TopicConfig.SetPartitions(map[string]int32{E.topic: E.n}) on the mock
 TSetParts ==
   /\ E.ev = "setparts"
   /\ ps' = PSetParts(ps, E.topic, E.n)
-  /\ UNCHANGED <<viol, cf, pm, obs, lastOff, cs, cb, st>>
+  /\ UNCHANGED <<viol, cf, pm, obs, lastOff, cs, cb, md, st>>
 
 TSend ==
   /\ E.ev = "send"
-  /\ LET m == [mid |-> E.mid, topic |-> E.topic, key |-> E.key, mpart |-> E.mpart]
+  /\ LET m == [mid |-> E.mid, topic |-> E.topic, key |-> E.key, mpart |-> E.mpart, bad |-> E.bad]
          a == StepSend([ps |-> ps, pm |-> pm, repE |-> <<>>, v |-> {}], m, E.pcall[2], E.mp, E.chk, E.i)
      IN /\ ps' = a.ps /\ pm' = a.pm
         /\ viol' = viol \cup a.v \cup OffViol(E.outs, lastOff, E.i) \cup Bad \cup RepClauses(E.i, a.repE, E.rep)
   /\ obs' = AddObs(obs, E.outs)
   /\ lastOff' = LastSucc(E.outs, lastOff)
   /\ st' = [st EXCEPT !.sends = @ + 1, !.outcomes = @ + Len(E.outs), !.reports = @ + Len(E.rep)]
-  /\ UNCHANGED <<cf, cs, cb>>
+  /\ UNCHANGED <<cf, cs, cb, md>>
 
-\* SyncProducer.SendMessages: E.msgs = <<<<mid, topic, key, mpart>>…>>, E.after = <<<<mid, msg.Partition, msg.Offset>>…>>
+\* SyncProducer.SendMessages: E.msgs = <<<<mid, topic, key, mpart, bad>>…>>, E.after = <<<<mid, msg.Partition, msg.Offset>>…>>
 TBatch ==
   /\ E.ev = "batch"
-  /\ LET ms == [k \in DOMAIN E.msgs |-> [mid |-> E.msgs[k][1], topic |-> E.msgs[k][2], key |-> E.msgs[k][3], mpart |-> E.msgs[k][4]]]
+  /\ LET ms == [k \in DOMAIN E.msgs |-> [mid |-> E.msgs[k][1], topic |-> E.msgs[k][2], key |-> E.msgs[k][3], mpart |-> E.msgs[k][4], bad |-> E.msgs[k][5]]]
          r == PBatch(cf, ps, ms, [k \in DOMAIN E.after |-> E.after[k][2]])
          succs == [k \in DOMAIN r.offs |-> <<E.after[k][1], IF r.offs[k] > 0 THEN "succ" ELSE "err", "-", E.after[k][3], E.after[k][2]>>]
-         \* "insufficient expectations" carries no argument, a failing checker its error (= the returned one)
-         want == [k \in DOMAIN r.rep |-> IF r.rep[k] = "checker" THEN <<r.err>> ELSE <<>>]
+         \* "insufficient expectations" carries no argument, a failing checker / partitioner its error (= the returned one)
+         want == [k \in DOMAIN r.rep |-> IF r.rep[k] \in {"checker", "partitioner"} THEN <<r.err>> ELSE <<>>]
      IN /\ ps' = r.ps
         /\ viol' = viol \cup When(E.ret # r.err, E.i, "fifo_outcome") \cup RepClauses(E.i, want, E.rep)
-                        \cup When(\E k \in DOMAIN r.parts : r.parts[k] # E.after[k][2], E.i, "partition_choice")
+                        \cup When(\E k \in DOMAIN r.parts : r.parts[k] # NoPart /\ r.parts[k] # E.after[k][2], E.i, "partition_choice")
                         \cup OffViol(succs, lastOff, E.i) \cup Bad
         /\ lastOff' = LastSucc(succs, lastOff)
   /\ st' = [st EXCEPT !.batches = @ + 1, !.reports = @ + Len(E.rep)]
-  /\ UNCHANGED <<cf, pm, obs, cs, cb>>
+  /\ UNCHANGED <<cf, pm, obs, cs, cb, md>>
 
 (* concurrent senders: E.order = <<<<mid, partition>>…>> is the order in which the mock asked the
    partitioner (= the order in which it received the messages that found an expectation); the j-th
    received message must get the j-th expectation.  Messages the partitioner never saw found the
    expectation FIFO empty.                                                                        *)
 MsgOf(mid) == LET k == CHOOSE k \in DOMAIN E.msgs : E.msgs[k][1] = mid
-              IN [mid |-> mid, topic |-> E.msgs[k][2], key |-> E.msgs[k][3], mpart |-> E.msgs[k][4]]
+              IN [mid |-> mid, topic |-> E.msgs[k][2], key |-> E.msgs[k][3], mpart |-> E.msgs[k][4], bad |-> E.msgs[k][5]]
 MpOf(mid) == (CHOOSE k \in DOMAIN E.mps : E.mps[k][1] = mid)
 RECURSIVE FoldOrder(_, _)
 FoldOrder(acc, order) ==
@@ -190,7 +194,7 @@ TCSend ==
         /\ lastOff' = LastSucc(ordered, lastOff)
   /\ obs' = AddObs(obs, E.outs)
   /\ st' = [st EXCEPT !.csends = @ + 1, !.outcomes = @ + Len(E.outs), !.reports = @ + Len(E.rep)]
-  /\ UNCHANGED <<cf, cs, cb>>
+  /\ UNCHANGED <<cf, cs, cb, md>>
 
 TClose ==
   /\ E.ev = "close"
@@ -206,10 +210,14 @@ TClose ==
                         \cup When(\E mid \in DOMAIN allobs : mid \notin DOMAIN pm, E.i, "exactly_one_outcome")
   /\ lastOff' = LastSucc(E.outs, lastOff)
   /\ st' = [st EXCEPT !.closes = @ + 1, !.outcomes = @ + Len(E.outs), !.reports = @ + Len(E.rep)]
-  /\ UNCHANGED <<cf, pm, cs, cb>>
+  /\ UNCHANGED <<cf, pm, cs, cb, md>>
 
 -----------------------------------------------------------------------------
-(* consumer mock: every operation is applied to the oracle state and the observation compared *)
+(* consumer mock: every operation is applied to the oracle state and the observation compared.
+   E.p is a slot of MocksOracle (topic CTopicOf, partition CPartOf).  E.hwm[s+1] is
+   PartitionConsumer.HighWaterMarkOffset() of slot s (-1: not registered), E.hwms[s+1] the entry of
+   Consumer.HighWaterMarks()[topic][partition] (-1: no such entry).                              *)
+IsMeta == E.op \in {"setmeta", "topics", "partitions"}
 COp ==
   CASE E.op = "expect" -> CExpect(cs, E.p, E.off)
     [] E.op = "yieldmsg" -> CYieldMsg(cs, E.p, E.id)
@@ -221,18 +229,32 @@ COp ==
     [] E.op = "asyncclose" -> CAsyncClose(cs, E.p)
     [] E.op = "closepc" -> CClosePC(cs, E.p)
     [] E.op = "closeall" -> CCloseAll(cs)
+    [] IsMeta -> CRes(cs, "ok", <<>>)
 \* the argument values of the consumer mock's deviations, from the situation before the step
-PStr(q) == ToString(q)
+PStr(q) == ToString(CPartOf(q))
 CloseArgs(pc, q) ==
-  IF ~pc.consumed THEN <<<<"tc", PStr(q)>>>>                                        \* expected but never consumed
-  ELSE (IF pc.de /\ pc.eq # <<>> THEN <<<<"tc", PStr(q), ToString(Len(pc.eq))>>>> ELSE <<>>)     \* errors left
-       \o (IF pc.dm /\ pc.mq # <<>> THEN <<<<"tc", PStr(q), ToString(Len(pc.mq))>>>> ELSE <<>>)  \* messages left
+  IF ~pc.consumed THEN <<<<CTopicOf(q), PStr(q)>>>>                                        \* expected but never consumed
+  ELSE (IF pc.de /\ pc.eq # <<>> THEN <<<<CTopicOf(q), PStr(q), ToString(Len(pc.eq))>>>> ELSE <<>>)     \* errors left
+       \o (IF pc.dm /\ pc.mq # <<>> THEN <<<<CTopicOf(q), PStr(q), ToString(Len(pc.mq))>>>> ELSE <<>>)  \* messages left
+RECURSIVE CloseAllArgs(_)
+CloseAllArgs(q) == IF q \notin CParts THEN <<>> ELSE (IF cs[q].reg THEN CloseArgs(cs[q], q) ELSE <<>>) \o CloseAllArgs(q + 1)
 CWant(r) ==
-  CASE E.op = "consume" /\ r.rep = <<"unexpected_partition">> -> <<<<"tc", PStr(E.p)>>>>
-    [] E.op = "consume" /\ r.rep = <<"unexpected_offset">> -> <<<<"tc", PStr(E.p), ToString(cs[E.p].eoff), ToString(E.off)>>>>
+  CASE E.op = "consume" /\ r.rep = <<"unexpected_partition">> -> <<<<CTopicOf(E.p), PStr(E.p)>>>>
+    [] E.op = "consume" /\ r.rep = <<"unexpected_offset">> -> <<<<CTopicOf(E.p), PStr(E.p), ToString(cs[E.p].eoff), ToString(E.off)>>>>
     [] E.op = "closepc" -> CloseArgs(cs[E.p], E.p)
-    [] E.op = "closeall" -> (IF cs[0].reg THEN CloseArgs(cs[0], 0) ELSE <<>>) \o (IF cs[1].reg THEN CloseArgs(cs[1], 1) ELSE <<>>)
+    [] E.op = "closeall" -> CloseAllArgs(0)
     [] OTHER -> <<>>
+\* topic metadata
+MetaClauses ==
+  CASE E.op = "topics" ->
+         LET r == CTopics(md) IN
+         When(E.ret # r.ret \/ (r.ret = "ok" /\ (ToSet(E.strs) # r.tset \/ Len(E.strs) # Cardinality(r.tset))), E.i, "metadata_result")
+         \cup RepClauses(E.i, [k \in DOMAIN r.rep |-> <<>>], E.rep)
+    [] E.op = "partitions" ->
+         LET r == CPartitions(md, E.w) IN
+         When(E.ret # r.ret \/ (r.ret = "ok" /\ E.errs # r.parts), E.i, "metadata_result")
+         \cup RepClauses(E.i, [k \in DOMAIN r.rep |-> <<>>], E.rep)
+    [] OTHER -> RepClauses(E.i, <<>>, E.rep)
 TCop ==
   /\ E.ev = "cop"
   /\ LET r == COp
@@ -240,28 +262,34 @@ TCop ==
          first == E.op = "yieldmsg" /\ cs[p].yields = 0
          base == IF first THEN E.val[2] - 1 ELSE IF p \in CParts THEN cb[p] ELSE 0
          \* "consecutive offsets": the first message of a partition may start anywhere, the k-th follows the (k-1)-th
-         want == IF r.val = <<>> THEN <<>> ELSE <<r.val[1], base + r.val[2], r.val[3], "tc">>
-         hw(q) == IF r.cs[q].reg /\ r.cs[q].yields > 0 THEN (IF q = p THEN base ELSE cb[q]) + CHwm(r.cs[q]) ELSE -1
+         want == IF r.val = <<>> THEN <<>> ELSE <<r.val[1], base + r.val[2], CPartOf(r.val[3]), CTopicOf(r.val[3])>>
+         hw(q) == (IF q = p THEN base ELSE cb[q]) + CHwm(r.cs[q])
+         hwbad(q) ==
+           IF ~r.cs[q].reg THEN E.hwms[q + 1] # -1                       \* HighWaterMarks() lists a partition nobody registered
+           ELSE \/ E.hwms[q + 1] = -1                                    \* … or misses a registered one
+                \/ r.cs[q].yields > 0 /\ (E.hwm[q + 1] # hw(q) \/ E.hwms[q + 1] # hw(q))
      IN /\ cs' = r.cs
         /\ cb' = IF first THEN [cb EXCEPT ![p] = base] ELSE cb
-        /\ viol' = viol \cup Bad \cup RepClauses(E.i, CWant(r), E.rep)
+        /\ md' = IF E.op = "setmeta" THEN E.id ELSE md
+        /\ viol' = viol \cup Bad
+             \cup (IF IsMeta THEN MetaClauses ELSE RepClauses(E.i, CWant(r), E.rep))
              \cup When(E.op = "consume" /\ E.ret # r.ret, E.i, "consume_result")
              \cup When(E.op = "yieldmsg" /\ E.val[2] # want[2], E.i, "consecutive_offsets")
              \cup When(E.op = "yieldmsg" /\ <<E.val[3], E.val[4]>> # <<want[3], want[4]>>, E.i, "message_partition")
              \cup When(E.op = "readmsg" /\ E.val # want, E.i, "yield_order")
              \cup When(E.op \in {"readerr", "closepc"} /\ E.errs # r.errs, E.i, "error_order")
-             \cup When(\E q \in CParts : hw(q) # -1 /\ (E.hwm[q + 1] # hw(q) \/ E.hwms[q + 1] # hw(q)), E.i, "high_water_mark")
+             \cup When(\E q \in CParts : hwbad(q), E.i, "high_water_mark")
   /\ st' = [st EXCEPT !.cops = @ + 1, !.reports = @ + Len(E.rep)]
   /\ UNCHANGED <<cf, ps, pm, obs, lastOff>>
 
 TCend ==
   /\ E.ev = "cend"
-  /\ UNCHANGED <<viol, cf, ps, pm, obs, lastOff, cs, cb, st>>
+  /\ UNCHANGED <<viol, cf, ps, pm, obs, lastOff, cs, cb, md, st>>
 
 TEnd == /\ E.ev = "end"
         /\ PrintT(<<"VIOL", ToJson(viol)>>)
         /\ PrintT(<<"STATS", ToJson(st)>>)
-        /\ UNCHANGED <<viol, cf, ps, pm, obs, lastOff, cs, cb, st>>
+        /\ UNCHANGED <<viol, cf, ps, pm, obs, lastOff, cs, cb, md, st>>
 
 Next == /\ l <= Len(Trace)
         /\ l' = l + 1
